@@ -20,6 +20,7 @@ def min_fence(ex, node, args, kwargs):
 contract(Contract(
     target=M + ":MarkdownNormalizer._render_code",
     props=["C04", "C01", "C12"],
+    assumes=['Marko: a code element has one RawText child holding the code; FencedCode has lang / extra, CustomFencedCode fence_char / fence_len', '_min_fence_length returns >= 3 and more than the longest fence run of the content (checked against an independent spec on a bounded function sweep in props/C04, not proved)'],
     params={"element": "ref:CodeEl"},
     self_cls="MarkdownNormalizer",
     setup=self_setup,
